@@ -15,10 +15,10 @@ class DescriptionNode(BaseNode):
             return DescriptionNode(parser)
                      
     def parse(self, env):
-        if env.nodes[-1].keyword not in ['str','int','float','bool']:
-            raise Exception("Description can be set only to str, int, float and bool nodes:", env.nodes[-1].code)
-        if env.nodes[-1].description == None:
-            env.nodes[-1].description = str(self.value_raw)
+        if env.nodes.last().keyword not in ['str','int','float','bool']:
+            raise Exception("Description can be set only to str, int, float and bool nodes:", env.nodes.last().code)
+        if env.nodes.last().description == None:
+            env.nodes.last().description = str(self.value_raw)
         else:
-            env.nodes[-1].description += str(self.value_raw)
+            env.nodes.last().description += str(self.value_raw)
         return None
